@@ -8,7 +8,7 @@ from .. import core, gen
 from ..refs import sanitize as ref
 
 ALPHABET = ["0", "1", "a", "B", "é", "-", "/", ".", "_"]
-SEPS = [".", "-", "_", None]
+SEPS = [".", "-", "_", "--", "-.", "\u00b7", None]   # the statement says "a non-alphanumeric separator": also several characters, also non-ASCII
 MAXLENS = [None, 0, 1, 2, 3, 5]
 MINIMUMS = (50000, 1000)
 
@@ -144,6 +144,10 @@ TPL_COMBOS = [
     ("max_length=7", dict(separator=None, lowercase=False, keep_zeros=False, max_length=7)),
     ("lowercase=false, max_length=4", dict(separator=None, lowercase=False, keep_zeros=False, max_length=4)),
     ("keep_zeros=true, max_length=3", dict(separator=None, lowercase=False, keep_zeros=True, max_length=3)),
+    ("separator='--', max_length=3", dict(separator="--", lowercase=False, keep_zeros=False, max_length=3)),
+    ("separator='-.', lowercase=true, max_length=6", dict(separator="-.", lowercase=True, keep_zeros=False, max_length=6)),
+    ("separator='\u00b7', max_length=4", dict(separator="\u00b7", lowercase=False, keep_zeros=False, max_length=4)),
+    ("separator='::'", dict(separator="::", lowercase=False, keep_zeros=False, max_length=None)),
 ]
 TL, TR = "\u2039", "\u203a"
 
@@ -259,10 +263,10 @@ def run(ctx):
         for sig, why, s_, out in r["bad"]:
             ctx.refute(sig, why, dict(kind="template", input=s_), observed=out)
     ctx.exhaustive = True
-    ctx.rule = ("exhaustive strings over %r up to length %d x 96 settings (separator x lowercase x keep_zeros x max_length)%s, plus %d random "
-                "Unicode / hostile strings per setting, the integer sanitiser, the three named presets and the template function sanitize(...) in 17 argument combinations; every output re-sanitised "
+    ctx.rule = ("exhaustive strings over %r up to length %d x %d settings (separator x lowercase x keep_zeros x max_length)%s, plus %d random "
+                "Unicode / hostile strings per setting, the integer sanitiser, the three named presets and the template function sanitize(...) in %d argument combinations; every output re-sanitised "
                 "(idempotence). non-trivial = (setting, input) pairs whose output differs from the input" % (
-                    "".join(ALPHABET), 5, "" if quick else " and the complete length-6 layer", 400 if quick else 4000))
+                    "".join(ALPHABET), 5, len(allcfg), "" if quick else " and the complete length-6 layer", 400 if quick else 4000, len(TPL_COMBOS)))
     ctx.assumptions = ["the probe links the zerv library built from /repo's working tree; Sanitizer::sanitize is called directly",
                        "two admissible truncation windows for inputs starting with a non-alphanumeric character (DESIGN C16)",
                        "separator=None: only length, idempotence and no-panic are asserted"]
